@@ -248,7 +248,7 @@ func (t *TracksReader) MultiPlay(trackouts map[int]drivers.Out) error {
 		},
 	)
 
-	sort.Sort(pl)
+	sort.Stable(pl)
 
 	var last time.Duration = 0
 
